@@ -864,20 +864,76 @@ fn run_case(sink: &mut Sink, lx: &Lexica, dict: &Dict, ci: &CaseIn, ill_formed: 
         } else if let Some(w) = key_range_oracle(lx, &c, &sa, &sb) {
             sink.fail(id, &w, "");
         } else {
-            // boundaries and word ids must not depend on which word-info fields are requested (the field needed for
-            // splitting is added by the tokenizer itself)
+            // boundaries, word ids and on-demand splits must not depend on which word-info fields are requested (what
+            // splitting needs is added by the tokenizer itself): the directed requests -- nothing, one field only -- and
+            // two drawn from the text, each in both call orders (mode at creation then set_subset; set_subset on a mode-C
+            // tokenizer then set_mode), directly in modes A / B and through split_into on a mode-C result
             use sudachi::dic::subset::InfoSubset;
-            let mut ss = InfoSubset::from_bits_truncate(restricted_bits);
-            if !ci.path_rewrite.is_empty() {
+            let cover = if ci.path_rewrite.is_empty() {
+                InfoSubset::empty()
+            } else {
                 // the request must cover what the configured path-rewrite plugins read (the restriction C10/C11 state):
                 // JoinNumericPlugin decides on the POS and the normalised form
-                ss |= InfoSubset::POS_ID | InfoSubset::NORMALIZED_FORM | InfoSubset::SURFACE;
-            }
-            for (m, full) in [(Mode::A, &a), (Mode::B, &b)] {
-                let r = run_mode_subset(dict, &ci.text, m, Some(ss), None);
-                if &r != full {
-                    sink.fail(id, &format!("mode {:?} with field request {:?} gives {:?}, with all fields {:?}", m, ss, r, full), "");
-                    break;
+                InfoSubset::POS_ID | InfoSubset::NORMALIZED_FORM | InfoSubset::SURFACE
+            };
+            let mut requests: Vec<u32> = vec![0, 1, 2, 4, 8, 32, 64, 128, 512, restricted_bits, ((hash_of(&ci.text) >> 10) % 1024) as u32];
+            requests.sort();
+            requests.dedup();
+            'outer: for rbits in requests {
+                let ss = InfoSubset::from_bits_truncate(rbits) | cover;
+                for (m, full) in [(Mode::A, &a), (Mode::B, &b)] {
+                    for subset_first in [false, true] {
+                        let r = catch(|| {
+                            let mut tok = if subset_first { StatefulTokenizer::new(dict.clone(), Mode::C) } else { StatefulTokenizer::new(dict.clone(), m) };
+                            tok.set_subset(ss);
+                            if subset_first {
+                                tok.set_mode(m);
+                            }
+                            tok.reset().push_str(&ci.text);
+                            tok.do_tokenize().expect("tokenisation error");
+                            let mut list = MorphemeList::empty(dict.clone());
+                            list.collect_results(&mut tok).expect("collect");
+                            observe(&list)
+                        })
+                        .ok();
+                        if &r != full {
+                            let how = if subset_first { "new(C); set_subset; set_mode" } else { "new(mode); set_subset" };
+                            sink.fail(id, &format!("mode {:?} with field request {:?} ({}) gives {:?}, with all fields {:?}", m, ss, how, r, full), "");
+                            break 'outer;
+                        }
+                    }
+                }
+                // on demand: a mode-C result under the request plus the split lists
+                let want = ss | InfoSubset::SPLIT_A | InfoSubset::SPLIT_B;
+                let lr = catch(|| {
+                    let mut tok = StatefulTokenizer::new(dict.clone(), Mode::C);
+                    tok.set_subset(want);
+                    tok.reset().push_str(&ci.text);
+                    tok.do_tokenize().expect("tokenisation error");
+                    let mut list = MorphemeList::empty(dict.clone());
+                    list.collect_results(&mut tok).expect("collect");
+                    list
+                });
+                match lr {
+                    Ok(list) if list.len() == c.ctoks.len() => {
+                        for i in 0..list.len() {
+                            for (m, exp) in [(Mode::A, &sa[i]), (Mode::B, &sb[i])] {
+                                let got = run_split(&list, i, m);
+                                if &got != exp {
+                                    sink.fail(id, &format!("split_into({:?}) of token {} of a mode-C result with field request {:?} gives {:?}, with all fields {:?}", m, i, want, got, exp), "");
+                                    break 'outer;
+                                }
+                            }
+                        }
+                    }
+                    Ok(list) => {
+                        sink.fail(id, &format!("mode C with field request {:?} gives {} tokens, with all fields {}", want, list.len(), c.ctoks.len()), "");
+                        break 'outer;
+                    }
+                    Err(p) => {
+                        sink.fail(id, &format!("mode C with field request {:?} panicked: {}", want, p), "");
+                        break 'outer;
+                    }
                 }
             }
         }
@@ -956,7 +1012,7 @@ fn key_length_boundary(sink: &mut Sink, cfg: &str) {
 pub fn run(args: &Args) {
     let mut sink = Sink::new("C09", &args.out, &["Model.Split", "Model.SplitSource"], args.seed, &args.tier);
     sink.shard_size = 100;
-    sink.rule("generated system + 0..2 user dictionaries (atoms of 1/2/3/4-byte code points, headwords (column 4) often of another byte length than the key, compounds declaring A and B units by id, U-id or inline reference: system->system, user->system, user->user; homographs; user copies of system words (same key, headword, POS, reading) referenced inline, so that the own-rows-first look-up order matters; words with exactly one unit; unindexed unit targets) compiled by DictBuilder and loaded with DefaultInputTextPlugin + a rewrite.def whose rules change byte lengths, under path-rewrite stacks {none, JoinKatakanaOovPlugin minLength 1..4, JoinNumericPlugin, both} over dictionaries whose katakana / numeral words declare units (a token merged by a plugin declares none: unchanged in A/B, split_into false); texts = 1..4 dictionary words / stray characters, randomly re-spelt in pre-normalisation form (upper case, full width, ㌔, rewrite rules); per text: C, A, B tokenisation by tokenizers that are fresh or were switched between modes (set_mode history, with analyses in between) before, A and B again under a restricted field request, and split_into(A/B) of every C token (sub-token ranges also checked against the unit key lengths); non-trivial = some C token declares >= 2 units; a separate malformed stream uses ill-formed declarations (unit list too short / first unit longer than the text)");
+    sink.rule("generated system + 0..2 user dictionaries (atoms of 1/2/3/4-byte code points, headwords (column 4) often of another byte length than the key, compounds declaring A and B units by id, U-id or inline reference: system->system, user->system, user->user; homographs; user copies of system words (same key, headword, POS, reading) referenced inline, so that the own-rows-first look-up order matters; words with exactly one unit; unindexed unit targets) compiled by DictBuilder and loaded with DefaultInputTextPlugin + a rewrite.def whose rules change byte lengths, under path-rewrite stacks {none, JoinKatakanaOovPlugin minLength 1..4, JoinNumericPlugin, both} over dictionaries whose katakana / numeral words declare units (a token merged by a plugin declares none: unchanged in A/B, split_into false); texts = 1..4 dictionary words / stray characters, randomly re-spelt in pre-normalisation form (upper case, full width, ㌔, rewrite rules); per text: C, A, B tokenisation by tokenizers that are fresh or were switched between modes (set_mode history, with analyses in between) before, A and B again under restricted field requests (nothing, single fields, two drawn from the text; both orders of set_subset / set_mode; directly and through split_into on a mode-C result), and split_into(A/B) of every C token (sub-token ranges also checked against the unit key lengths); non-trivial = some C token declares >= 2 units; a separate malformed stream uses ill-formed declarations (unit list too short / first unit longer than the text)");
     let res = prepare_resources(&args.work);
     let cfg = config_json(&res, "");
     if let Some(p) = &args.replay {
